@@ -54,6 +54,7 @@ class FnContract:
     prologue: str = ''
     attrs: list = field(default_factory=list)
     src: str = ''
+    private: bool = False
 
     @property
     def props(self):
@@ -127,6 +128,9 @@ def parse_file(path):
             elif d == '@attr':
                 flush()
                 cur.attrs.append(arg)
+            elif d == '@private':
+                flush()
+                cur.private = True
             elif d in ('@impl', '@trait', '@module'):
                 if cur is not None:
                     raise SpecError(where + ': missing @end')
